@@ -540,6 +540,10 @@ class H2Explorer(concur.Explorer):
             st = getattr(h2c, "_h2_state", None)
             if st is None:
                 continue
+            # every caller is done, so every response has been closed: no stream may still be registered on the connection (a stream
+            # that stays registered keeps its slot and keeps the connection from ever going idle)
+            if getattr(h2c, "_events", None):
+                self.violations.append(("C12:stream-slot-leaked", {"streams_still_registered": sorted(h2c._events), "state": h2c._state.name}))
             wm = st._inbound_flow_control_window_manager
             sock = h2c._network_stream.get_extra_info("sim_socket")
             peer = sock.peer
